@@ -35,6 +35,23 @@ theorem c09_table_via_parse : viaParseTypes table =
 theorem c09_table_type_local : notByTheorem table = ["ZodBigInt", "ZodFile", "ZodFunction", "ZodStringBool", "ZodStruct"] := by
   decide +kernel
 
+/-- **Whole table (round 4b): the method Go actually selects.** For every schema type, following promotion through
+    embedded schemas (a promoted method runs on the EMBEDDED value), `ParseAny`, `MustParse` and `MustParseAny` bottom out
+    in the very implementation the type's `Parse` bottoms out in, and `MustStrictParse` in that of its `StrictParse`. A type
+    that overrides `Parse` but keeps the promoted wrappers (seeded/C09d) fails this. -/
+theorem c09_table_bases : baseOffenders table = [] := by decide +kernel
+
+/-- The statement is not vacuous: 24 types embed a schema AND declare entry points of their own. -/
+theorem c09_table_mixed : 20 ≤ (mixedTypes table).length := by decide +kernel
+
+/-- **Transcribed pairs.** The rows and every statement around the engine call of `ZodBigInt`, `ZodFile`, `ZodFunction`,
+    `ZodStruct` are, text for text, what `Gozod.TypeLocal` transcribes (`c09_bigint_strict_eq_parse`,
+    `c09_file_strict_eq_parse`, `c09_function_same_verdict_value`, `c09_struct_partial`). -/
+theorem c09_table_transcribed : transcriptionOffenders table stmts = [] := by decide +kernel
+
+/-- … so only `ZodStringBool` (different domains by design) is left to the run alone. -/
+theorem c09_table_run_only : judgedByRunOnly table = ["ZodStringBool"] := by decide +kernel
+
 /-- The table is not vacuous: at least 50 schema types, six rows each. -/
 theorem c09_table_nonempty : 50 ≤ (Table.types table).length ∧ table.length = 6 * (Table.types table).length := by decide +kernel
 
